@@ -66,6 +66,7 @@ Definition obs_pre (cs : amap pconf) (o : obs) (te : tid * event) : obs :=
     | ERunSpawned, _ => o <| o_spawning := false |>
     | EShutdownBegin, _ => o <| w_sdspawn := w_sdspawn o || o_spawning o |>
     | ERunChecked false, Some i =>
+        (* the check passed although a stop had already been requested: same window *)
         oi_upd i (fun x => x <| o_commit := true |>) (note_late_commit o i)
     | EApiReturn _, _ => o <| o_api := del th (o_api o) |>
     | EStarted, Some i => oi_upd i (fun x => x <| o_started := true |>) o
@@ -84,17 +85,20 @@ Definition obs_pre (cs : amap pconf) (o : obs) (te : tid * event) : obs :=
     | EBackoffElapsed, Some i =>
         oi_upd i (fun x => x <| o_elapsed := true |> <| o_commit := true |>) (note_late_commit o i)
     | EProcEnd i s0, _ =>
+        (* onProcessEnd by the instance's own thread: it no longer launches *)
         let own := opt_eqb N.eqb (get th (o_th o)) (Some i) in
         oi_upd i (fun x => x <| o_endst := Some s0 |> <| o_commit := if own then false else o_commit x |>) o
     | EDepDone _ false, Some i => oi_upd i (fun x => x <| o_depfail := true |>) o
     | ENoRestart i, _ => oi_upd i (fun x => x <| o_stopreq := true |>) (o <| w_commit := w_commit o || o_commit (oi_get o i) |>)
     | EStopEnter i cancel, _ =>
+        (* an internal stop (readiness probe failure, cancel = false) is not a stop request *)
         oi_upd i (fun x => x <| o_stopreq := o_stopreq x || cancel |>)
                              (o <| w_dup := w_dup o || stopping o i || existsb (fun p => N.eqb (snd p) i) (o_instop o) |>
                                 <| o_instop := set th i (o_instop o) |>
                                 <| w_commit := w_commit o || (cancel && o_commit (oi_get o i)) |> <| o_stopstage := set th true (o_stopstage o) |> <| o_stopinst := set th (Some i) (o_stopinst o) |>)
     | EStopRunning i, _ => o <| o_stopstage := set th false (o_stopstage o) |> <| o_stopinst := set th None (o_stopinst o) |>
     | EStopPending i, _ =>
+        (* a stop that finds the instance Pending ends it, whether it is an external or an internal stop *)
         oi_upd i (fun x => x <| o_stopreq := true |>)
         (o <| o_stopstage := set th false (o_stopstage o) |> <| o_stopinst := set th None (o_stopinst o) |> <| w_commit := w_commit o || o_commit (oi_get o i) |>)
     | EStopReturn i, _ =>
@@ -110,7 +114,7 @@ Definition obs_pre (cs : amap pconf) (o : obs) (te : tid * event) : obs :=
         let o := fold_left (fun o i => oi_upd i (fun x => x <| o_stopreq := true |> <| o_insnap := true |>) o) order o in
         let by_api := match get th (o_th o) with None => true | Some _ => false end in
         o <| o_sd_cur := set th order (o_sd_cur o) |>
-          <| o_api_sd_first := o_api_sd_first o || (by_api && match o_triggers o with [] => true | _ => false end) |>
+          <| o_api_sd_first := o_api_sd_first o || (by_api && negb (o_code_fixed o)) |>
     | EShutdownEnd, _ =>
         let snap := match get th (o_sd_cur o) with Some l => l | None => [] end in
         o <| o_sd_done := S (o_sd_done o) |> <| o_sd_snap := snap ++ o_sd_snap o |> <| o_sd_cur := del th (o_sd_cur o) |>
@@ -119,6 +123,10 @@ Definition obs_pre (cs : amap pconf) (o : obs) (te : tid * event) : obs :=
         on_upd (o_nm (oi_get o i)) (fun r => r <| r_ready := true |>) (oi_upd i (fun x => x <| o_logok := true |>) o)
     | EProbe i true false, _ => on_upd (o_nm (oi_get o i)) (fun r => r <| r_ready := true |>) o
     | EExitTrigger c, Some i => o <| o_triggers := o_triggers o ++ [(i, c, o_sd_victim (oi_get o i))] |>
+                                  <| o_trig_th := th :: o_trig_th o |>
+    | EResume, _ | EShutdownCall, _ | EExitCodeSet _, _ =>
+        (* what a triggering goroutine logs next: exitCodeOnce.Do lies behind it *)
+        o <| o_code_fixed := o_code_fixed o || memN th (o_trig_th o) |>
     | ERunReturn c, _ => o <| o_run_ret := Some c |>
     | _, _ => o
     end.
